@@ -240,6 +240,31 @@ def value_coq(v):
     raise ValueError(v)
 
 
+def text_coq(s):
+    return '[%s]' % '; '.join(str(c) for c in s.encode('utf-8'))
+
+
+def names_coq(t, defs=None):
+    """Coq term of type `names` (spec/Text.v) for the type's member / arm / enumerator names; with `defs`
+    composite declarations are emitted once as definitions (as in to_coq)"""
+    if t[0] in ('scalar', 'byte'):
+        return 'NLeaf'
+    if t[0] == 'enum':
+        body = '(NEnum [%s])' % '; '.join('(%s, %s)' % (zlit(v), text_coq(n)) for n, v in t[2])
+    elif t[0] == 'struct':
+        body = '(NStruct [%s])' % '; '.join('(%s, %s)' % (text_coq(fn), names_coq(ft, defs)) for fn, _, ft in t[2])
+    elif t[0] == 'union':
+        body = '(NUnion [%s])' % '; '.join('(%s, %s)' % (text_coq(an), names_coq(at, defs)) for _, an, at in t[2])
+    else:
+        raise ValueError(t)
+    if defs is None:
+        return body
+    ident = 'nm_' + t[1]
+    if ident not in defs:
+        defs[ident] = body
+    return ident
+
+
 def bytes_coq(b):
     return '[%s]' % '; '.join(str(x) for x in b)
 
